@@ -371,6 +371,26 @@ func check(c Case) hx.Verdict {
 	if v := judge("route 2 (explode, then read)", g2, o2, explodeDev, explodeDev); v != nil {
 		return *v
 	}
+	// after explode the document is a plain tree: the node read at a path reports that path (an entry a merge key
+	// brought in belongs to the map it was merged into, not to the anchored map it came from)
+	if g2 != nil {
+		wantPath := model.NewSeq()
+		for _, st := range c.Path {
+			var idx int
+			if _, err := fmt.Sscanf(st, "#%d", &idx); err == nil && strings.HasPrefix(st, "#") {
+				wantPath.Elem = append(wantPath.Elem, model.NewInt(int64(idx)))
+			} else {
+				wantPath.Elem = append(wantPath.Elem, model.NewStr(st))
+			}
+		}
+		gp, op := jsonOne("explode(.) | "+q+" | path", c.Text)
+		if v := fail(op, "path after explode"); v != nil {
+			return *v
+		}
+		if gp == nil || !model.Equal(gp, wantPath) {
+			return hx.Bad("", "`explode(.) | %s | path` is %v, expected %s\n%s", q, js(gp), wantPath.JSON(), c.Text)
+		}
+	}
 	// route 3: convert to JSON, then look up
 	g3, o3 := jsonOne(".", c.Text)
 	if v := fail(o3, "route 3"); v != nil {
@@ -484,4 +504,11 @@ func check(c Case) hx.Verdict {
 
 func TestProp(t *testing.T) {
 	hx.RunProperty(t, hx.NewSub("merge_keys", 6000, 40000, genCase, check))
+}
+
+func js(v *model.Value) string {
+	if v == nil {
+		return "<no result>"
+	}
+	return v.JSON()
 }
